@@ -332,7 +332,8 @@ def _caches(model: Model, rep: Report) -> None:
                 problems.append("the cached branch does more than read the cache")
             # after the store, the stored value is not modified before return
             stored_names = {x.id for x in ast.walk(st_.value) if isinstance(x, ast.Name)}
-            later = [n for n in walk_no_nested(f.node) if isinstance(n, (ast.Assign, ast.AugAssign)) and n.lineno > st_.lineno and any(isinstance(t, ast.Name) and t.id in stored_names for t in (n.targets if isinstance(n, ast.Assign) else [n.target]))]
+            order = {id(n): i for i, n in enumerate(walk_no_nested(f.node))}
+            later = [n for n in walk_no_nested(f.node) if isinstance(n, (ast.Assign, ast.AugAssign)) and order[id(n)] > order[id(st_)] and any(isinstance(t, ast.Name) and t.id in stored_names for t in (n.targets if isinstance(n, ast.Assign) else [n.target]))]
             if later:
                 problems.append(f"value reassigned after caching: {unparse(later[0])[:60]}")
             retv = unparse(rets[-1].value) if rets else ""
